@@ -6,4 +6,5 @@ CONSTANTS
   Rich = @@RICH@@
   Overloads = @@OVERLOADS@@
   Emit = @@EMIT@@
+  AnyRet = @@ANYRET@@
 INVARIANTS Consistent KwOrderIrrelevant EmitInv @@EXTRA@@
